@@ -7,3 +7,11 @@ func init() {
 		NotCovered: "operand-stack depth consistency and the numeric values of jump offsets for particular programs (properties of emitted sequences, not of the emitter's shape).",
 	}
 }
+
+func init() {
+	props["C28"] = &PropSpec{
+		Rules:      []string{"hdr/native", "native/argidx"},
+		Decides:    "for every method the std headers declare native and for which a native registration on the same class resolves (about 2400 pairs): the registration takes exactly the parameters the header declares (the VM sizes the argument slice from the registration, so fewer means an out-of-range read, more means shifted arguments); and every native method body indexes its argument slice only within the parameter count it is registered with.",
+		NotCovered: "native methods reached only through included mixins or through containers the analysis does not resolve (counted in the evidence, not decided); parameter and return *types* (see C01/C02 rules); thrown-error classes; semantic correctness of results.",
+	}
+}
